@@ -373,11 +373,23 @@ class VizierServicer(vizier_service_pb2_grpc.VizierServiceServicer):
           t for t in all_trials if t.state == study_pb2.Trial.State.REQUESTED
       ]
       while requested_trials and request.suggestion_count > len(output_trials):
-        assigned_trial = requested_trials.pop()
-        assigned_trial.state = study_pb2.Trial.State.ACTIVE
-        assigned_trial.client_id = request.client_id
-        assigned_trial.start_time.CopyFrom(start_time)
-        self.datastore.update_trial(assigned_trial)
+        # `all_trials` is a snapshot: under the study lock (which serializes
+        # every other write to a Trial) re-read the Trial, so that a concurrent
+        # UpdateMetadata is not overwritten by the stale copy and a Trial that
+        # was deleted meanwhile is skipped.
+        with self._study_name_to_lock[study_name]:
+          try:
+            assigned_trial = self.datastore.get_trial(
+                requested_trials.pop().name
+            )
+          except custom_errors.NotFoundError:
+            continue
+          if assigned_trial.state != study_pb2.Trial.State.REQUESTED:
+            continue
+          assigned_trial.state = study_pb2.Trial.State.ACTIVE
+          assigned_trial.client_id = request.client_id
+          assigned_trial.start_time.CopyFrom(start_time)
+          self.datastore.update_trial(assigned_trial)
         output_trials.append(assigned_trial)
 
       if len(output_trials) == request.suggestion_count:
@@ -666,7 +678,10 @@ class VizierServicer(vizier_service_pb2_grpc.VizierServiceServicer):
       )
       grpc_util.handle_exception(e, context)
 
-    self.datastore.delete_trial(request.name)
+    # Under the study lock, so that the Trial cannot disappear between the read
+    # and the write-back of another call (CompleteTrial, SuggestTrials, ...).
+    with self._study_name_to_lock[study_name]:
+      self.datastore.delete_trial(request.name)
     return empty_pb2.Empty()
 
   # TODO: This currently uses the same algorithm as suggestion.
